@@ -12,10 +12,10 @@ use crate::{
     ClientFieldVariant, CompilationProfile, ContainsIsoStats, IsographDatabase,
     client_selectable_declaration_map_from_iso_literals, deprecated_client_selectable_map,
     entity_not_defined_diagnostic, flattened_entities, flattened_entity_named,
-    flattened_selectables, flattened_server_object_entities, parse_iso_literals,
-    process_iso_literals, selectables, server_id_selectable,
-    validate_selection_sets::validate_selection_sets, validate_use_of_arguments,
-    validated_entrypoints,
+    flattened_selectable_named, flattened_selectables, flattened_server_object_entities,
+    multiple_selectable_definitions_found_diagnostic, parse_iso_literals, process_iso_literals,
+    selectables, server_id_selectable, validate_selection_sets::validate_selection_sets,
+    validate_use_of_arguments, validated_entrypoints,
 };
 
 /// In the world of pico, we minimally validate. For example, if the
@@ -37,6 +37,8 @@ pub fn validate_entire_schema<TCompilationProfile: CompilationProfile>(
     maybe_extend(&mut errors, validate_use_of_arguments(db));
 
     errors.extend(validate_selectables(db));
+
+    errors.extend(validate_client_selectables_do_not_redefine_server_selectables(db));
 
     errors.extend(validate_selection_sets(db));
 
@@ -200,6 +202,35 @@ fn validate_scalar_selectable_directive_sets<TCompilationProfile: CompilationPro
             }
 
             None
+        })
+        .collect()
+}
+
+/// Validate that no client selectable (client field, client pointer, __link or exposed field)
+/// has the same parent and name as a server selectable. (selectable_named returns an error
+/// for those, but only for the ones that are selected somewhere.)
+fn validate_client_selectables_do_not_redefine_server_selectables<
+    TCompilationProfile: CompilationProfile,
+>(
+    db: &IsographDatabase<TCompilationProfile>,
+) -> Vec<Diagnostic> {
+    let client_selectables = match deprecated_client_selectable_map(db) {
+        Ok(s) => s,
+        // reported by validate_scalar_selectable_directive_sets
+        Err(_) => return vec![],
+    };
+    let declarations = client_selectable_declaration_map_from_iso_literals(db);
+
+    client_selectables
+        .keys()
+        .filter(|key| flattened_selectable_named(db, key.0, key.1).is_some())
+        .map(|key| {
+            let declaration = declarations.item.get(key);
+            multiple_selectable_definitions_found_diagnostic(
+                key.0,
+                key.1,
+                declaration.map(|declaration| declaration.location.to::<Location>()),
+            )
         })
         .collect()
 }
